@@ -13,6 +13,15 @@ CLAIMED = {
             'raysect Spectrum replaced by a model; translator validated against the compiled module on every run.',
             'DESIGN.md §4 C02', TECH),
 }
+CLAIMED['C20'] = (
+    'generate_derivative_operators is executed from source on object arrays for every grid shape 2x2..3x3 (quick) / ..5x4 '
+    '(thorough) with symbolic origin, dx, dy and polynomial coefficients; z3 (QF_NRA) decides per cell that constants are '
+    'annihilated, Dx/Dy are exact on linear, Dxy on bilinear, Dxx/Dyy on quadratic fields (interior). calculate_admt is '
+    'executed on one generic cell with abstract constant-annihilating operator rows and its five coefficients are '
+    'compared with div(D grad f) in cylindrical geometry derived at run time by sympy; anisotropy=1 => Laplacian.',
+    'grid shapes are enumerated (stated), all continuous quantities are solver-quantified; doubles as exact reals; '
+    'numpy object arrays carry the proxies through numpy\'s own @, mean, diff, diag.',
+    'DESIGN.md §4 C20', TECH)
 NOT_YET = {}
 props = [json.loads(l) for l in open(os.path.join(HERE, 'properties.jsonl'))]
 checks, na = [], []
